@@ -24,6 +24,7 @@ META = {
                     "regex::Regex::new returns Err rather than panicking; regex matching is linear-time"],
     "not_decided": ["time bound of PEG backtracking", "time bound of the regex engine", "deadness of js_path_process's Err arm"],
 }
+META["explanation"] += ' R6 slice walks visit a number of positions bounded by the array length (shared with C11-R7). R2 also proves indexes that are the payload of an Option computed by a conditional, leaf by leaf.'
 
 Q = "crate::query::Query"
 M = "crate::parser::model::"
